@@ -54,10 +54,12 @@ ASSUMPTIONS = [
 ]
 SHRINK_SECONDS = 60
 TIER = "quick"
-NSCENE = {"quick": (60, 500), "thorough": (400, 4000)}  # scenes per side, rejection iterations per side
+# scenes per side, rejection iterations per side (visibility checks cast rays: ~50 ms per iteration)
+NSCENE = {"quick": {"contain2d": (60, 500), "heading": (60, 500), "contain3d": (40, 250), "visibility": (25, 120)},
+          "thorough": {"contain2d": (400, 4000), "heading": (400, 4000), "contain3d": (200, 1500), "visibility": (100, 600)}}
 FINDINGS = {  # stable keys; attributed only by the matchers in `attribute`
     "z": "pruned-polygon-loses-z", "soft": "non-hard-requirement-used-for-pruning", "loop": "containment-erosion-retry-loop",
-    "offset": "containment-intersects-base-although-offset-exceeds-inradius",
+    "offset": "containment-intersects-base-although-offset-exceeds-inradius", "wrap": "relative-heading-range-not-normalised",
 }
 
 
@@ -343,9 +345,19 @@ def attribute(P, clause, info, stages):
         flat = isinstance(s.base, rr.Ref) and s.base.dim == 2 and not getattr(s.base, "hz", 0)
         if flat and (info.get("how") == "polygon-z" or info.get("z_only")) and s.base.zs[0] != 0:
             return FINDINGS["z"]  # regionFromShapelyObject: PolygonalRegion.intersect result has z = 0
+    if clause == "feasible-position-pruned-away" and s is not None and i in stages.get("pruneRelativeHeading", []) and info.get("how") == "polygon":
+        keys = []
+        if any(r.kind != "require" and r.quantity == "rh" and r.pred is not None for r in P.reqs):
+            keys.append(FINDINGS["soft"])  # requirements.py compile(): relations inferred whatever the statement kind / probability
+        hs = [prunegen.norm_angle(h) for _, h in P.cells]
+        here = [h for (ring, _), h in zip(P.cells, hs) if rr.poly_sd([np.array(ring)], np.array(info["point"][:1]), np.array(info["point"][1:2]))[0] <= 0]
+        pairs = [(h1, h2) if s.name == "ego" else (h2, h1) for h1 in here for h2 in hs]  # (ego's cell heading, target's cell heading)
+        if any(abs(ht - he) > math.pi and r.pred(prunegen.norm_angle(ht - he)) for he, ht in pairs for r in P.reqs
+               if r.quantity == "rh" and r.pred is not None and s.name in ("ego", r.target)):
+            keys.append(FINDINGS["wrap"])  # relativeHeadingRange: the difference of two normalised headings is not normalised,
+            # so a cell pair whose true relative heading satisfies the bound is judged infeasible
+        return "+".join(keys) or None
     if clause == "feasible-position-pruned-away" and s is not None:
-        if i in stages.get("pruneRelativeHeading", []) and any(not r.hard and r.quantity == "rh" for r in P.reqs):
-            return FINDINGS["soft"]  # requirements.py compile(): relations inferred whatever the statement kind / probability
         if s.on and s.base_offset is not None and i in stages.get("pruneContainment", []) and math.hypot(*s.base_offset[:2]) > 0:
             return FINDINGS["offset"]  # pruneContainment: maxErosion <= 0 still intersects the base with the container
     if clause == "pruning-helper-call-explosion" and info.get("helper", "").endswith("_erodeOverapproximate") and info.get("identical_calls", 0) > 8:
@@ -357,8 +369,7 @@ def run(tape):
     from scenic.core.distributions import Samplable
     P = prunegen.gen(tape)
     seed = tape.draw(1 << 30, "rng-seed")
-    N, cap = NSCENE[TIER]
-    cap = cap if P.family in ("contain2d", "heading") else cap // 2
+    N, cap = NSCENE[TIER][P.family]
     stats, violations, steps = {"family:" + P.family: 1}, [], 0
     key = hashlib.blake2b(P.text.encode(), digest_size=8).hexdigest()
     dig = hashlib.blake2b(P.text.encode(), digest_size=8)
@@ -383,7 +394,11 @@ def run(tape):
         stats[f"rejected-compile:{type(e).__name__}"] = stats["unjudged:knob-off-compile-failed"] = 1
         sample["knob_off_compile"] = f"{type(e).__name__}: {e}"[:300]
         return done()
-    scenes_off, samples_off, its_off = generate(off, N, cap, seed)
+    try:
+        scenes_off, samples_off, its_off = generate(off, N, cap, seed)
+    except Exception as e:  # noqa: BLE001 - the reference scenario itself cannot be sampled: nothing to compare
+        stats[f"rejected-program:knob-off-generate-raised:{type(e).__name__}"] = stats["unjudged:knob-off-generate-failed"] = 1
+        return done()
     obs_off = [observe(s) for s in scenes_off]
     steps += len(scenes_off)
     stats["scenes:knob-off"], stats["iterations:knob-off"] = len(scenes_off), its_off
@@ -477,7 +492,12 @@ def run(tape):
             viol("feasible-position-pruned-away", worst)
 
     # clause 2: nothing new introduced (the knob-off scenes are the reference for every predicate)
-    scenes_on, _, its_on = generate(on, N, cap, seed + 7)
+    try:
+        scenes_on, _, its_on = generate(on, N, cap, seed + 7)
+    except Exception as e:  # noqa: BLE001 - sampling works without pruning and fails with it
+        if scenes_off:
+            viol("pruning-reports-infeasible", {"phase": "generate", "exception": f"{type(e).__name__}: {e}"[:300], "knob_off_scenes": len(scenes_off), "object": None})
+        return done()
     obs_on = [observe(s) for s in scenes_on]
     steps += len(scenes_on)
     stats["scenes:knob-on"], stats["iterations:knob-on"] = len(scenes_on), its_on
